@@ -186,6 +186,13 @@ def ev(e: Expr, pt: Point):
         return all(ev(x, pt) for x in e[1])
     if t == "or":
         return any(ev(x, pt) for x in e[1])
+    if t == "choice":
+        # one of the alternatives; the same Choice node resolves the same way everywhere in a trial
+        if e not in pt.opq:
+            pt.opq[e] = pt.rng.randrange(len(e[1]))
+        return ev(e[1][int(pt.opq[e])], pt)
+    if t == "at":
+        return ev(e[2], pt)
     if t == "opq":
         if e[1].startswith("unmodelled"):
             raise NotEvaluable(e[1])
